@@ -634,6 +634,10 @@ class World:
         self._access("waitpid", str(pid))
         self.waitpid_log.append((self.mono, pid, flags))
         p = self.procs.get(pid)
+        # a signal interrupting the call before it has anything to report (one-shot per ordinal)
+        self.waitpid_n = getattr(self, "waitpid_n", 0) + 1
+        if self.waitpid_n in getattr(self, "eintr_at", ()) and p is not None and p.child and p.state != "Z":
+            raise oserr(errno.EINTR)
         if p is None or not p.child:
             raise oserr(errno.ECHILD)
         if p.state == "Z":
